@@ -185,3 +185,16 @@ Theorem C17_spec_m2m_healthy_means : forall (d i : sview) (b : bool), m2m_health
   (forall k v, (exists s, In (v, s) i /\ In k s) <-> (exists s, In (k, s) d /\ In v s)) /\ b = true.
 Proof. exact m2m_healthy_sound. Qed.
 Print Assumptions C17_spec_m2m_healthy_means.
+
+(* OneToOne with an unhashable operand: TypeError and the object is exactly as
+   before - in particular update / |= are all-or-nothing, wherever in the
+   argument the unhashable key or value sits. *)
+Theorem C17_oto_update_all_or_nothing : forall o kvs, existsb kv_unhashable kvs = true ->
+  oto_step o (OUpdate kvs) = (o, Raise TypeError) /\ oto_step o (OIor kvs) = (o, Raise TypeError).
+Proof. exact update_all_or_nothing. Qed.
+Print Assumptions C17_oto_update_all_or_nothing.
+
+Theorem C17_oto_setitem_refuses_unhashable : forall o k v, unhashable k || unhashable v = true ->
+  oto_step o (OSet k v) = (o, Raise TypeError).
+Proof. exact setitem_refuses_unhashable. Qed.
+Print Assumptions C17_oto_setitem_refuses_unhashable.
